@@ -181,7 +181,12 @@ class Model:
             raise MErr('other', '%s: %s' % (type(e).__name__, e))
 
     def copy(self, v):
-        return copy.deepcopy(v)
+        try:
+            return copy.deepcopy(v)
+        except RecursionError:
+            raise Unspec('recursion inside deepcopy')
+        except Exception as e:       # a host object that cannot be copied: the assignment fails, nothing is stored
+            raise MErr('other', '%s: %s' % (type(e).__name__, e))
 
     # ------------------------------------------------------------------ statements
     def stmt(self, t):
